@@ -264,19 +264,18 @@ def _strip_guards(fn: ast.AST) -> ast.AST:
 
 
 def rule_e5_e6(chk: Check) -> None:
-    chk.rule("E5", "GeminiClientProtocol and TitanClientProtocol agree on data_received, _parse_header, connection_lost, _set_error")
+    chk.rule("E5", "advisory sibling comparison of the two client protocols (never a finding: E1-E3 and E6 run on each class)")
     a, b = (chk.proj.cls(k) for k in PROTOS)
     for name in ("data_received", "_parse_header", "connection_lost", "_set_error"):
         fa, fb = a.methods.get(name), b.methods.get(name)
         if fa is None or fb is None:
-            chk.finding("E5", (fa or fb).key if (fa or fb) else PROTOS[0], f"sibling-missing:{name}", f"only one of the client protocols implements {name}", "")
-            chk.ob("E5", name, False)
+            chk.note(f"E5 (advisory): only one of the client protocols implements {name}")
             continue
         sa, sb = _canon(_strip_guards(fa.node)), _canon(_strip_guards(fb.node))
         ok = sa == sb
         if not ok:
-            chk.finding("E5", fb.key, f"sibling-divergence:{name}", f"{name} differs between the Gemini and the Titan client protocol: a repair or change was applied to one only", fb.loc())
-        chk.ob("E5", f"{name} agrees", ok)
+            chk.note(f"E5 (advisory, not a verdict): {name} differs textually between the Gemini and the Titan client protocol; E1-E3/E6 decide each on its own")
+        chk.ob("E5", f"{name} compared (advisory)", True, "agree" if ok else "DIFFER", nontrivial=False)
     chk.rule("E6", "the chunk parameter of both client data_received methods only extends the buffer")
     for key in PROTOS:
         fi = chk.proj.cls(key).methods.get("data_received")
